@@ -113,6 +113,19 @@ def c19 (args res : List String) : Verdict :=
         let impl := s!"manager={get "manager"} held={get "held"} later={get "later"}"
         if model = impl then vOk tag else vDiff "respawn" model tag
     | _, _ => vBad (joinToks args)
+  | ["retry", kS] =>
+    -- k failed announces, then a good one (T4: every maximal execution of the retry model ends with the peers contacted, for
+    -- every k): the task reports k failures and then the reply
+    match kS.toNat? with
+    | some k =>
+      let get (key : String) : String := (res.filterMap fun t => if t.startsWith (key ++ "=") then some ((t.drop (key.length + 1)).toString) else none).headD "?"
+      let tag := s!"retry-{if k ≥ 100 then "long" else "short"}"
+      if res.head? = some "P" then vProp "T4-tracker-task-panics" tag
+      else if get "task" = "dead" then vProp s!"T4-tracker-task-died-after-{get "fails"}-failed-announces" tag
+      else if get "got" ≠ "resp" then vProp s!"T4-good-announce-never-answered-after-{get "fails"}-failures" tag
+      else if get "fails" ≠ toString k then vDiff "retry-failures-reported" (toString k) tag
+      else vOk tag
+    | none => vBad (joinToks args)
   | ["accept", variant] =>
     -- connections made *to* the real Session (its listener): nothing is written before the peer's handshake, a foreign
     -- info-hash is answered with nothing, a valid handshake with the client's own (BEP 3 layout from the wire model)
